@@ -134,10 +134,12 @@ def St.flush (s : St) (h : Nat) : St :=
 
 /-- `substitute_loop_indexes`: an element `[i]` of an attribute path becomes `[k]` -/
 def substSeg (binds : List (String × Nat)) (seg : String) : String :=
-  let v := (seg.replace "[" "").replace "]" ""
-  match binds.lookup v with
-  | some k => "[" ++ toString k ++ "]"
-  | none => seg
+  if seg.startsWith "[" && seg.endsWith "]" then
+    let v := (seg.replace "[" "").replace "]" ""
+    match binds.lookup v with
+    | some k => "[" ++ toString k ++ "]"
+    | none => seg
+  else seg
 
 def substParam (binds : List (String × Nat)) : Param → Param
   | .path p => .path (p.map (substSeg binds))
